@@ -20,7 +20,8 @@ RULE = (
     "case = (sub-assembly of lattice cells, chop placement derived from the edge-family model with <=d placement "
     "deviations, variant set: all insertion orders | all 24 numberings of one block); every script variant is run "
     "under the choice-point explorer over all iteration orders of Axis.neighbours/Wire.coincidents (exhaustive below "
-    "the per-script cap, else deviation-bounded). non-trivial = at least 2 blocks in contact and >1 schedule or >1 variant"
+    "the per-script cap, else deviation-bounded); a refused write() is repeated once on the same mesh and must end "
+    "the same way. non-trivial = at least 2 blocks in contact and >1 schedule or >1 variant"
 )
 ASSUMPTIONS = [
     "any permutation of an identity-hashed set of <=6 elements is realisable by some address assignment",
@@ -196,7 +197,12 @@ def run_script(script, cap, reps):
         mesh, _ = gradlab.build_mesh(script)
         kind, payload = gradlab.write_and_observe(mesh)
         if kind != "ok":
-            return f"{kind}:{payload}"
+            if kind.startswith("livelock"):
+                return f"{kind}:{payload}"
+            # "repeated runs end the same way": the refused write() is repeated on the same mesh (default schedule)
+            control.set_chooser(None)
+            kind2, payload2 = gradlab.write_and_observe(mesh)
+            return f"{kind}:{payload}>retry:{kind2}:{payload2 if kind2 != 'ok' else 'written'}"
         content = canonical_content(payload)
         for i, r in enumerate(reps):
             if same_content(r, content):
@@ -252,6 +258,8 @@ def run_case(case):
             if verdict == "undefined" and not o.startswith("error:UndefinedGradingsError"):
                 if not o.startswith("livelock"):
                     violations.append({"clause": "b-undefined-not-reported", "coords": c2, "detail": f"a family has no chop but writing ended with {o}"})
+            if ">retry:" in o and o.split(">retry:")[0] != o.split(">retry:")[1]:
+                violations.append({"clause": "e-retry-ends-differently", "coords": c2, "detail": f"write() ended with {o.split('>retry:')[0]}, the same call repeated on the same mesh with {o.split('>retry:')[1]}"})
             if verdict == "ok" and o.startswith("ok"):
                 content = reps[int(o.split(":")[1])]
                 bad = check_counts(content, script, fam_counts, fam)
@@ -274,7 +282,7 @@ def run_case(case):
                 "detail": {o: all_outcomes[o] for o in ok_outcomes[:3]},
             }
         )
-    kinds = sorted({o.split(":")[0] + (":" + o.split(":")[1] if not o.startswith("ok") else "") for o in all_outcomes})
+    kinds = sorted({o.split(":")[0] + (":" + o.split(">")[0].split(":")[1] if not o.startswith("ok") else "") for o in all_outcomes})
     return {
         "violations": violations,
         "outcome": f"{verdict}|" + ",".join(kinds),
